@@ -241,6 +241,21 @@ def check_type_probes():
                 continue
             out.append(('accepts-invalid/%s/type' % how, {'typeprobe': [how, repr(bt)]},
                         '%s with type=%r returned %s' % (how, bt, core.srepr(m))))
+    # the type given twice (positional and keyword, the same or not) is never a way to mix two types
+    for pos, kw in (('clock', 'note_on'), ('aftertouch', 'polytouch'), ('clock', 'sysex'), ('note_on', 'note_off'),
+                    ('note_on', 'note_on'), ('songpos', 'pitchwheel')):
+        try:
+            m = mido.Message(pos, type=kw)
+        except Exception:
+            continue
+        ok = False
+        try:
+            ok = (m.type == pos == kw) and is_valid_message(m) and list(m.bytes()) == list(mido.Message(pos).bytes())
+        except Exception:
+            pass
+        if not ok:
+            out.append(('accepts-invalid/constructor/type-twice', {'typeprobe': ['type-twice', pos + '/' + kw]},
+                        "Message(%r, type=%r) returned %s" % (pos, kw, core.srepr(vars(m)))))
     for text in ('clock type=144', 'note_on type=0x90', '144', '0x90 note=1', 'note_on type=note_off'):
         try:
             m = mido.Message.from_str(text)
